@@ -84,14 +84,13 @@ def check_skeletons(xss, update):
         return
     need(os.path.exists(SKELETON_FILE), "translate/c04_skeleton.json is missing")
     exp = json.load(open(SKELETON_FILE))
-    changed = [n for n, _ in SKELETON_UNITS if exp.get(n) != cur[n]]
-    need(not changed, "control skeleton changed (hand-transcribed in Model.lean / Uri.lean; data constants are masked): " + ", ".join(changed))
+    return [n for n, _ in SKELETON_UNITS if exp.get(n) != cur[n]]
 
 
 def main(repo, lean):
     xss = strip_c_comments(open(os.path.join(repo, "src/xss.cpp")).read())
     cstr = strip_c_comments(open(os.path.join(repo, "private/c_string.h")).read())
-    check_skeletons(xss, "--update-skeleton" in sys.argv)
+    skeleton_changed = check_skeletons(xss, "--update-skeleton" in sys.argv) or []
     o = []
     w = o.append
     w("/- GENERATED by translate/c04.py from src/xss.cpp and private/c_string.h. Do not edit. -/")
@@ -317,6 +316,8 @@ def main(repo, lean):
     path = os.path.join(lean, "Cppcms", "C04", "Gen.lean")
     changed = write_if_changed(path, "\n".join(o) + "\n")
     print(("rewrote " if changed else "unchanged ") + path)
+    # Gen.lean is written first (so that the proofs are re-checked against the new constants), then the tie is reported broken
+    need(not skeleton_changed, "control skeleton changed (hand-transcribed in Model.lean / Uri.lean; data constants are masked): " + ", ".join(skeleton_changed))
 
 
 if __name__ == "__main__":
